@@ -3705,3 +3705,56 @@ func ruleCronNextZero(prop string) ruleFn {
 		}
 	}
 }
+
+// ONESHOT-AGREE (C15): the cron and the engine classify the same string.
+func ruleOneShotAgree(w *World, r *Report) {
+	r.Rule("ONESHOT-AGREE", "premise: cron.ParseSchedule trims the schedule (strings.TrimSpace) before the crons classify it as one-shot or recurring (checked).  Conclusion: core.OneShotSchedule, by which RuleDone.Do decides whether the rule that just ran is deleted, tests a byte of the trimmed string too.  If only the cron trims, a schedule like \" +1s\" is one-shot for the cron (it fires once) and recurring for the engine: the rule is never deleted although it will never fire again", 1)
+	ps := w.Func("cron", "ParseSchedule")
+	one := w.Func("core", "OneShotSchedule")
+	isTrim := func(v ssa.Value) bool {
+		c, ok := v.(*ssa.Call)
+		if !ok {
+			return false
+		}
+		return isPkgFunc(calleeObj(c.Common()), "strings", "TrimSpace")
+	}
+	trims := false
+	allInstrs(ps, func(in ssa.Instruction) {
+		if v, ok := in.(ssa.Value); ok && isTrim(v) {
+			trims = true
+		}
+	})
+	key := "fn=" + fname(one)
+	if !trims {
+		r.exempt("ONESHOT-AGREE", key, w.Pos(ps.Pos()), "premise fails: ParseSchedule does not trim; nothing to agree with")
+		return
+	}
+	n := 0
+	bad := false
+	allInstrs(one, func(in ssa.Instruction) {
+		var x ssa.Value
+		switch t := in.(type) {
+		case *ssa.Index:
+			x = t.X
+		case *ssa.Lookup:
+			x = t.X
+		case *ssa.Slice:
+			x = t.X
+		default:
+			return
+		}
+		if !dependsOn(x, func(v ssa.Value) bool { return v == ssa.Value(one.Params[0]) }) {
+			return
+		}
+		n++
+		if !dependsOn(x, isTrim) {
+			bad = true
+			r.violation("ONESHOT-AGREE", key, w.PosOf(in), "the byte that decides `one-shot` is taken from the untrimmed schedule, while the crons classify the trimmed one")
+		}
+	})
+	if n == 0 {
+		r.exempt("ONESHOT-AGREE", key, w.Pos(one.Pos()), "OneShotSchedule does not index its parameter: shape not recognised, not decided")
+	} else if !bad {
+		r.ok("ONESHOT-AGREE", key, w.Pos(one.Pos()), "classifies the trimmed schedule, as the crons do")
+	}
+}
